@@ -579,7 +579,8 @@ def standard_run(rep, prop_id, targets, body, rule, exhaustive=False):
     if exhaustive:
         rep.coverage["exhaustive"] = True
     support_ok = all(os.path.exists(os.path.join(COQ, t)) for t in targets)
-    body(rep, support_ok and build.translator_ok)
+    for b in (body if isinstance(body, (list, tuple)) else [body]):
+        b(rep, support_ok and build.translator_ok)
     for which, props in (("names", ("C10", "C06")), ("validate", ("C04", "C05", "C13", "C14", "C19"))):
         if which in build.rules_aborted and prop_id in props:
             rep.violation("%s:rules:%s" % (prop_id, which),
